@@ -14,7 +14,7 @@ import sys
 import tempfile
 import time
 
-from . import tree
+from . import hostile, tree
 
 WATCHDOG = {"quick": 15 * 60, "thorough": 90 * 60}
 
@@ -55,6 +55,7 @@ def run_check(prop, tier, seed):
     env["PYTHONPATH"] = tree.VERIF_ROOT + os.pathsep + env.get("PYTHONPATH",
                                                                 "")
     env.setdefault("ZCVERIF_REPO", tree.repo_root())
+    hostile.driver_env(env)
     pending = list(range(nshards))
     running = {}
     results = {}
@@ -66,11 +67,12 @@ def run_check(prop, tier, seed):
                 i = pending.pop(0)
                 out = os.path.join(outdir, "shard%d.json" % i)
                 log = open(os.path.join(outdir, "shard%d.log" % i), "w")
+                wenv = hostile.worker_env(env, i)
                 p = subprocess.Popen(
                     [sys.executable, "-m", "zcverif.run", "worker", prop,
                      "--tier", tier, "--seed", str(seed), "--shard", str(i),
                      "--nshards", str(nshards), "--out", out],
-                    env=env, cwd=tree.VERIF_ROOT, stdout=log,
+                    env=wenv, cwd=tree.VERIF_ROOT, stdout=log,
                     stderr=subprocess.STDOUT)
                 running[i] = (p, out, log)
             time.sleep(0.05)
@@ -259,6 +261,7 @@ def minimise(mod, prop, v, budget=60):
     if not isinstance(case, dict) or not isinstance(case.get("text"), str) \
             or not hasattr(mod, "replay"):
         return
+    os.environ.update(hostile.driver_env({}))
 
     def still(text):
         ctx = Ctx(prop, "quick", 0, 0, 1)
@@ -324,12 +327,15 @@ def run_worker(prop, tier, seed, shard, nshards, out):
         cov = LineCoverage(os.path.join(tree.repo_root(), "src", "ZConfig"))
         if not cov.start():
             cov = None
+    hostile.apply_in_process(shard)
     tree.bind()
     mod = load_check(prop)
     ctx = Ctx(prop, tier, seed, shard, nshards)
     try:
         mod.run_shard(ctx)
     finally:
+        for v in ctx.res.violations:
+            v["worker"] = hostile.describe(shard)
         if cov is not None:
             cov.stop()
             ctx.res.info["_linecov"] = cov.dump()
@@ -342,6 +348,16 @@ def run_replay(path):
     with open(path) as f:
         v = json.load(f)
     prop = v["property"]
+    w = v.get("worker") or {}
+    if w.get("optimize") and not sys.flags.optimize and \
+            not os.environ.get("ZCVERIF_REEXEC"):
+        # the witness was observed with assert statements compiled out
+        env = dict(os.environ, ZCVERIF_REEXEC="1", PYTHONOPTIMIZE="1")
+        return subprocess.call([sys.executable, "-m", "zcverif.run",
+                                "replay", path], env=env)
+    os.environ.update(hostile.driver_env({}))
+    if "shard" in w:
+        hostile.apply_in_process(w["shard"])
     tree.bind()
     mod = load_check(prop)
     from .shard import Ctx
